@@ -399,6 +399,8 @@ class Gen:
             if not numeric_only or any(k in ("parameter", "variable", "derived", "reaction", "surrogate_output") for k in ks)
         ] + ["time"]
         out = []
+        if n > 0 and r.random() < self.cfg.get("arity_slip", 0.0):
+            n += r.choice([-1, 1])  # wrong number of arguments on purpose
         for _ in range(n):
             if r.random() < self.cfg["dangling"] or not cands:
                 out.append(r.choice(self.pool))
@@ -500,7 +502,8 @@ class Gen:
             if kind == "add_variable":
                 return {"op": kind, "name": name, "value": self.value(names)}
             if kind in ("add_derived", "add_readout"):
-                fn = self.scalar_fn() if r.random() < 0.85 or not snap["data"] else r.choice(["dsum", "dscale"])
+                p_data = 0.8 if self.cfg.get("focus") == "data" else 0.4
+                fn = self.scalar_fn() if r.random() >= p_data or not snap["data"] else r.choice(["dsum", "dscale"])
                 if fn in ("dsum", "dscale"):
                     dn = r.choice(list(snap["data"]))
                     args = [dn] + self.arg_names(names, ARITY[fn] - 1)
@@ -623,7 +626,7 @@ def make_config(rng: SimRng, tier: str) -> dict:
     n_ops = r.randint(8, 28 if tier == "quick" else 40)
     pool = r.sample(NAME_POOL, r.randint(7, 12))
     # swarm: a random subset of mutators, always >= 1 mutator of each "add" needed to make content
-    muts = [m for m in MUTATORS if r.random() < 0.7]
+    muts = [m for m in MUTATORS if r.random() < 0.75]
     for must in ("add_parameter", "add_variable"):
         if must not in muts:
             muts.append(must)
@@ -637,10 +640,13 @@ def make_config(rng: SimRng, tier: str) -> dict:
         "queries": queries,
         "reject_rate": r.choice([0.1, 0.2, 0.25, 0.35]),
         "query_rate": r.choice([0.3, 0.45, 0.6]),
-        "dangling": r.choice([0.0, 0.03, 0.08, 0.15]),
+        "dangling": r.choice([0.0, 0.0, 0.03, 0.1]),
+        "arity_slip": r.choice([0.0, 0.0, 0.04, 0.1]),
         "ia_rate": r.choice([0.0, 0.1, 0.25]),
         "poison": r.random() < 0.4,
         "warmup": r.randint(3, 6),
+        # swarm focus: ops on one kind of component dominate this run
+        "focus": r.choice([None, None, *KINDS]),
     }
 
 
@@ -789,6 +795,7 @@ class Executor:
         out_f = outcome(run_query, fresh, q)
         if out_m[0] == "ok":
             self.memo_populated = True
+            self.counters["query_ok"] += 1
         else:
             self.counters[f"query_exc:{out_m[1]}"] += 1
             if out_m[1] == "ZeroDivisionError":
@@ -822,13 +829,13 @@ def _short(o) -> str:  # noqa: ANN001
 class EditsMachine(Machine):
     name = "edits"
     properties = ("C03",)
-    runs = {"quick": 1500, "thorough": 40000}
+    runs = {"quick": 8000, "thorough": 400000}
     run_timeout = 60.0
     rule = (
         "one run = one seeded history of public Model edits (single and batch mutators, ~25% intentionally "
         "rejected, poisoned functions, dangling args) interleaved with queries on ONE model object; oracle = a model "
-        "freshly rebuilt from the edited model's own content after every op. distinct = distinct multiset of "
-        "(op kind, outcome); non-trivial = at least one successful mutation after the memo was populated, followed by a query"
+        "freshly rebuilt from the edited model's own content after every op. distinct = distinct SET of "
+        "(op kind, outcome) pairs occurring in the history (counts ignored); non-trivial = at least one successful mutation after the memo was populated, followed by a query"
     )
     real_components = ["mxlpy.Model (all mutators, memo, id bookkeeping, queries)", "mxlpy.surrogates.qss.Surrogate"]
     stub_components = []
@@ -853,7 +860,14 @@ class EditsMachine(Machine):
             elif r.random() < cfg["query_rate"]:
                 op = gen.query(snap)
             else:
-                kind = rng.weighted("plan", [(m, ADD_WEIGHT if m.startswith("add_") else 1.0) for m in cfg["mutators"]])
+                focus = cfg.get("focus")
+                kind = rng.weighted(
+                    "plan",
+                    [
+                        (m, (ADD_WEIGHT if m.startswith("add_") else 1.0) * (5.0 if focus and focus in m else 1.0))
+                        for m in cfg["mutators"]
+                    ],
+                )
                 op = gen.mutator(kind, snap, names)
             ops.append(op)
             ex.step(i, op)
@@ -881,7 +895,7 @@ class EditsMachine(Machine):
         return self._result(case, ex)
 
     def _result(self, case: dict, ex: Executor) -> RunResult:
-        shape = digest_of(sorted((f"{a}:{b}", c) for (a, b), c in ex.shape.items()))
+        shape = digest_of(sorted(f"{a}:{b}" for (a, b) in ex.shape))
         return RunResult(
             case=case,
             violations=ex.violations,
